@@ -32,6 +32,16 @@ pub enum Cond {
     Exist(Expr),
     And(Box<Cond>, Box<Cond>),
     Or(Box<Cond>, Box<Cond>),
+    /// flat source form `atom (and|or atom)*`; grouping is left to the parser under test (and to
+    /// the Lean model of `parse_condition`)
+    Flat(Vec<FlatTok>),
+}
+
+#[derive(Clone, Debug)]
+pub enum FlatTok {
+    Atom(Cond),
+    And,
+    Or,
 }
 
 #[derive(Clone, Debug)]
@@ -225,6 +235,15 @@ impl Cond {
             Cond::Exist(e) => e.src(),
             Cond::And(a, b) => format!("{} and {}", a.src(), b.src()),
             Cond::Or(a, b) => format!("{} or {}", a.src(), b.src()),
+            Cond::Flat(ts) => ts
+                .iter()
+                .map(|t| match t {
+                    FlatTok::Atom(c) => c.src(),
+                    FlatTok::And => "and".into(),
+                    FlatTok::Or => "or".into(),
+                })
+                .collect::<Vec<_>>()
+                .join(" "),
         }
     }
     pub fn enc(&self, o: &mut Vec<String>) {
@@ -248,6 +267,20 @@ impl Cond {
                 o.push("Co".into());
                 a.enc(o);
                 b.enc(o);
+            }
+            Cond::Flat(ts) => {
+                o.push("Cf".into());
+                o.push(ts.len().to_string());
+                for t in ts {
+                    match t {
+                        FlatTok::Atom(c) => {
+                            o.push("a".into());
+                            c.enc(o);
+                        }
+                        FlatTok::And => o.push("&".into()),
+                        FlatTok::Or => o.push("|".into()),
+                    }
+                }
             }
         }
     }
